@@ -80,14 +80,23 @@ def chain_op(line, index):
     return ' '.join(f)
 
 
-def outputs_of(line, o):
-    """documents contained in an 'ok' outcome of a step (possibly several for select all); None if not a document result"""
+# operations that write into a caller's buffer: in a chain the buffer may already hold the previous result
+BUF_OPS = ('concat', 'delete_by_name', 'delete_by_index', 'delete_by_keypath', 'array_insert', 'array_distinct', 'array_intersection',
+           'array_except', 'object_insert', 'object_delete', 'object_pick', 'strip_nulls', 'build_array', 'build_object', 'select')
+
+
+def outputs_of(line, o, pre=b''):
+    """documents contained in an 'ok' outcome of a step (possibly several for select all); None if the bytes the buffer held
+    before the call (pre) are not there any more"""
     if not o.startswith('ok ') or o.startswith('ok ='):
         return []
     f = o[3:].split(' ')
     data = gen.unhexarg(f[0])
-    if line.startswith('select '):
-        offs = [int(x) for x in f[1].split(',')] if len(f) > 1 and f[1] else []
+    if data[:len(pre)] != pre:
+        return None
+    data = data[len(pre):]
+    if line.startswith('select'):
+        offs = [int(x) - len(pre) for x in f[1].split(',')] if len(f) > 1 and f[1] else []
         out, prev = [], 0
         for x in offs:
             out.append(data[prev:x])
@@ -115,8 +124,16 @@ def judge(ctx):
     clean = [True] * len(chains)
     for rnd in range(rounds):
         lines = []
+        pres = {}
         for k, regs in enumerate(chains):
-            lines.append('s%d %s' % (k, pick_op(ctx, regs)))
+            op = pick_op(ctx, regs)
+            # a chain collects its results in ONE buffer as often as in fresh ones: the step then appends to a buffer that holds
+            # the previous result (the theorem is run_bp: any output prefix), and what it appends must be the same document
+            name = op.split(' ', 1)[0]
+            if name in BUF_OPS and len(regs[-1][0]) <= 4000 and r.random() < 0.4:
+                pres[k] = regs[-1][0]
+                op = '%s@%s %s' % (name, regs[-1][0].hex(), op.split(' ', 1)[1])
+            lines.append('s%d %s' % (k, op))
         impl = core.run_cases(core.HARNESS_BIN, lines, 'C07-impl-%d' % rnd)
         model = core.run_cases(core.DRIVER_BIN, lines, 'C07-model-%d' % rnd)
         # a step without an outcome on either side is a failure of the machinery, never "both sides agree"
@@ -134,8 +151,17 @@ def judge(ctx):
                 ctx.violate('a chain step differs from the same step on the tree', case=line, step=rnd, expected_by_model=mo, observed=io)
                 clean[k] = False
                 continue
+            pre = pres.get(k, b'')
+            if pre:
+                ctx.count('steps_appending_to_a_buffer_that_holds_the_previous_result')
+                line = line.split('@', 1)[0] + ' ' + line.split(' ', 1)[1]
+            outs = outputs_of(line, io, pre)
+            if outs is None:
+                ctx.violate('a chain step changed the bytes its output buffer already held', case=lines[k][:600], step=rnd, observed=io[:600])
+                clean[k] = False
+                continue
             chain_ops[k].append(chain_op(line, index[k]))
-            for d in outputs_of(line, io):
+            for d in outs:
                 index[k].setdefault(gen.hexarg(d), len(full[k]))
                 full[k].append(d)
                 try:
